@@ -158,7 +158,7 @@ func errOfOK(v reflect.Value) bool { return v.IsNil() }
 
 func runC17(r *lib.Run) {
 	r.Rule = "every generated enumeration/identityref type of every configuration: name uniqueness and equality with the goyang name set; every defined value, zero and undefined values (neighbours of defined ones, +-2^31, int64 extremes) placed in every leaf / leaf-list / union / list-key position of that type found by reflection, then rendered (EmitJSON with and without module names, TogNMINotifications, EncodeTypedValue, EnumName, KeyValueAsString) and parsed back (Unmarshal, UnmarshalNotifications, SetNode string_val with and without module prefix); non-trivial = defined value round trip; distinct by cfg+position+value"
-	for _, cfg := range cfgsFor(r, quick3) {
+	for _, cfg := range cfgsFor(r, append(append([]string{}, quick3...), "vt/U-enumflags", "vtoc/C-enumflags")) {
 		gy, gerr := cfg.Goyang()
 		if gerr != nil {
 			r.Inconclusive("goyang: " + gerr.Error())
